@@ -376,6 +376,8 @@ def run_shard(spec):
     # every run contains them, whatever the seed
     fixed = {0: {"b": "1", "o": "randomS_7", "t": "[0.35, 0.4, 0.5]", "factor": 2, "cartesian": False, "T": 400.0, "D": 27.5, "route": "library", "n_b": 1, "shared_tool": True, "energy_offset": -4.0e5},
              3: {"b": "4", "o": "ico_7", "t": "[0.2, 0.35]", "factor": 1500, "cartesian": False, "T": 300.0, "D": 1.0, "route": "library", "n_b": 4},
+             5: {"b": "1", "o": "ico_12", "t": "[0.2, 0.3, 0.4]", "factor": 1500, "cartesian": False, "T": 300.0, "D": 1.0, "route": "library", "n_b": 1,
+                 "energy_spread": 5.0},   # uniformly tiny rates (~1/f^2): slow eigenvalues of order 1e-9 are still eigenvalues
              4: {"b": "1", "o": "ico_12", "t": "[0.2, 0.3, 0.45]", "factor": 2, "cartesian": False, "T": 220.0, "D": 1.0, "route": "library", "n_b": 1, "deep_well": True},
              1: {"b": "1", "o": "ico_12", "t": "[0.2, 0.3]", "factor": 1, "cartesian": False, "T": 300.0, "D": 1.0, "route": "workflow", "n_b": 1},
              2: {"b": "4", "o": "cube3D_4", "t": "[0.2, 0.35]", "factor": 2, "cartesian": False, "T": 273.0, "D": 1.0, "route": "library", "n_b": 4}}
